@@ -979,7 +979,7 @@ func (fv *FV) callWriteComps(x *ast.CallExpr) ([]string, bool) {
 	fn, _, isIface := fv.calleeOf(x)
 	if fn != nil && strings.Contains(fn.FullName(), "storage/mkvs.KeyValueTree).") || fn != nil && strings.Contains(fn.FullName(), "storage/mkvs.ImmutableKeyValueTree).") {
 		switch fn.Name() {
-		case "Insert", "Remove":
+		case "Insert", "Remove", "RemoveExisting":
 			return []string{regSort(kvDom, idxRef, arrSort(sInt, sBool)), regSort(kvVal, idxRef, arrSort(sInt, sInt)), regSort(kvWrites, idxRef, sInt)}, false
 		case "Get":
 			return nil, false
@@ -1008,6 +1008,12 @@ func (fv *FV) callWriteComps(x *ast.CallExpr) ([]string, bool) {
 		t := cl.Info.Types[mx].Type
 		if t == nil {
 			return nil, true
+		}
+		if call, ok := mx.(*ast.CallExpr); ok && len(call.Args) == 0 {
+			if id := identOf(ast.Unparen(call.Fun)); id != nil && id.Name == "gh_kvState" {
+				out = append(out, regSort(kvDom, idxRef, arrSort(sInt, sBool)), regSort(kvVal, idxRef, arrSort(sInt, sInt)), regSort(kvWrites, idxRef, sInt))
+				continue
+			}
 		}
 		if call, ok := mx.(*ast.CallExpr); ok && len(call.Args) == 1 {
 			if id := identOf(ast.Unparen(call.Fun)); id != nil && id.Name == "gh_anyOf" {
